@@ -30,7 +30,7 @@ Hint Resolve t_WatchOnly t_RSOR t_own_slot t_ResponseSent t_PreCommitSent t_Comm
 Hint Resolve q_sendCommit q_checkPreCommit q_checkPrepare q_sendPrepareRequest q_onPrepareResponse q_onPreCommit : kqdb.
 
 (* the initialisation at view 0 (Start, Reset) opens a new epoch: from any state, nothing is signed and the Commit table is empty *)
-Lemma reset_0 ts s0 : hx s0 (reset cfg 0 ts) (fun _ s tr => nsign tr = 0%nat /\ forall mi, KS mi tr -> I3 (Validators s) mi 0 s).
+Lemma reset_0 ts s0 : hx s0 (reset cfg 0 ts) (fun _ s tr => nsign tr = 0%nat /\ forall mi oc, KS mi tr -> I3 (Validators s) mi 0 oc s).
 Proof.
   unfold reset. cbn [Z.eqb]. unfold unsubscribeFromTransactions, GetPrimaryIndex. xs.
   all: repeat match goal with
@@ -46,7 +46,7 @@ Proof.
        end.
   all: match goal with Hc : _ = Some ?ik |- _ => apply sel_KeyPair3 in Hc; destruct Hc as [-> Hkey] end.
   all: split; [unfold nsign; cbn [filter snd]; repeat match goal with H : is_sign _ = false |- _ => rewrite H; clear H end; reflexivity|].
-  all: intros mi Hk;
+  all: intros mi oc Hk;
        match type of Hk with context[CKeyPair (fst ?ik) (snd ?ik)] =>
          assert (Emi : fst ik = mi) by (eapply (KS_in _ _ _ _ _ Hk); repeat (first [left; reflexivity | right])) end.
   all: unfold I3; cbn [Validators MyIndex ViewNumber MyKey set]; cbn [Validators set] in Hkey.
@@ -56,26 +56,27 @@ Qed.
 
 (* a view change happens only while nothing is signed: the Commit table is kept, the node's index is the one the application
    reports again *)
-Lemma reset_q view ts vs mi g0 s0 : I3g vs mi g0 s0 -> (KS mi g0 -> nsign g0 = 0%nat /\ ViewNumber s0 < view) ->
+Lemma reset_q view ts vs mi g0 s0 : I3g vs mi g0 s0 -> (KS mi g0 -> 0 < view /\ (zlen vs <= 65536 -> nsign g0 = 0%nat)) ->
   hx s0 (reset cfg view ts) (fun _ s tr => I3g vs mi (g0 ++ tr) s /\ nsign tr = 0%nat).
 Proof.
   intros H0 Hv. destruct (view =? 0) eqn:Ev0.
-  { (* not reachable under the hypothesis: the current view is not negative *)
+  { (* not reachable under the hypothesis *)
     apply Z.eqb_eq in Ev0. subst view. eapply x_conseq; [apply (reset_0 ts s0)|]. cbn. intros _ s n [Hn _]. split; [|exact Hn]. intros Hk. exfalso.
-    apply KS_app in Hk. destruct Hk as [Hk _]. pose proof (H0 Hk) as (_ & _ & A3 & _). pose proof (Hv Hk). lia. }
+    apply KS_app in Hk. destruct Hk as [Hk _]. pose proof (Hv Hk). lia. }
   unfold reset. apply x_modify. unfold unsubscribeFromTransactions at 1. apply x_modify. rewrite Ev0.
   apply Z.eqb_neq in Ev0.
   apply x_assoc. apply x_get. apply x_assoc. eapply x_call; [apply (keep_changeviews_spec (fun _ => True))|]. intros lk s1 n1 (-> & -> & _). cbn beta.
   unfold GetPrimaryIndex. xs.
   all: match goal with Hc : _ = Some ?ik |- _ => apply sel_KeyPair3 in Hc; destruct Hc as [-> Hkey] end.
   all: split; [|reflexivity].
-  all: intros Hk; pose proof Hk as Hk'; apply KS_app in Hk'; destruct Hk' as [Hk0 Hk1]; destruct (Hv Hk0) as [Hz Hlt];
+  all: intros Hk; pose proof Hk as Hk'; apply KS_app in Hk'; destruct Hk' as [Hk0 Hk1]; destruct (Hv Hk0) as [Hlt Hz];
        pose proof (H0 Hk0) as (A1 & A2 & A3 & A4 & A5);
-       match goal with |- context[CKeyPair (fst ?ik) (snd ?ik)] =>
+       match type of Hk1 with context[CKeyPair (fst ?ik) (snd ?ik)] =>
          assert (Emi : fst ik = mi) by (eapply (KS_in _ _ _ _ _ Hk1); left; reflexivity) end;
-       rewrite nsign_app, Hz; cbn [nsign filter is_sign snd length app Nat.add].
+       rewrite nsign_app; cbn [nsign filter is_sign snd length app]; rewrite Nat.add_0_r.
+  all: match goal with |- I3 _ _ _ ?o _ => generalize o; intros oc end.
   all: unfold I3; cbn [Validators MyIndex ViewNumber MyKey set]; cbn [Validators set] in Hkey.
   all: (split; [exact A1|split; [exact Emi|split; [lia|split; [intros Hmi; rewrite <- A1, <- Emi; apply Hkey; rewrite Emi; exact Hmi|]]]]).
-  all: intros _; constructor; [reflexivity|intros Hx; exfalso; apply Hx; reflexivity|auto].
+  all: intros Hs; rewrite (Hz Hs); constructor; [reflexivity|intros Hx; exfalso; apply Hx; reflexivity|auto].
 Qed.
 End ResetL.
